@@ -194,7 +194,8 @@ macro_rules! create_value_set {
 #[derive(Debug, Default)]
 struct CurrentExecution {
     uncommitted_span_ids: HashSet<RawSpanId>,
-    entered_span_ids: HashSet<RawSpanId>,
+    /// Number of enters not yet matched by an exit, per span; a span may be entered repeatedly.
+    entered_span_ids: HashMap<RawSpanId, usize>,
 }
 
 impl CurrentExecution {
@@ -204,9 +205,11 @@ impl CurrentExecution {
     }
 
     fn finalize(&mut self, local_spans: &LocalSpans) {
-        for id in mem::take(&mut self.entered_span_ids) {
+        for (id, enter_count) in mem::take(&mut self.entered_span_ids) {
             if let Some(local_id) = local_spans.inner.get(&id) {
-                TracingEventReceiver::dispatch(|dispatch| dispatch.exit(local_id));
+                for _ in 0..enter_count {
+                    TracingEventReceiver::dispatch(|dispatch| dispatch.exit(local_id));
+                }
             }
         }
         for id in mem::take(&mut self.uncommitted_span_ids) {
@@ -467,14 +470,20 @@ impl TracingEventReceiver {
                     self.local_spans.inner.insert(id, local_id.clone());
                     local_id
                 };
-                self.current_execution.entered_span_ids.insert(id);
+                *self.current_execution.entered_span_ids.entry(id).or_default() += 1;
                 Self::dispatch(|dispatch| dispatch.enter(&local_id));
             }
             TracingEvent::SpanExited { id } => {
                 if let Some(local_id) = self.map_span_id(id)? {
                     Self::dispatch(|dispatch| dispatch.exit(local_id));
                 }
-                self.current_execution.entered_span_ids.remove(&id);
+                let entered_span_ids = &mut self.current_execution.entered_span_ids;
+                if let Some(enter_count) = entered_span_ids.get_mut(&id) {
+                    *enter_count -= 1;
+                    if *enter_count == 0 {
+                        entered_span_ids.remove(&id);
+                    }
+                }
             }
 
             TracingEvent::SpanCloned { id } => {
